@@ -147,6 +147,17 @@ func registerMain() {
 		hist = append(hist, fmt.Sprintf("connections to the leader reset, %s not reachable for new connections for 12 s", victim.id.Name))
 		vrt.Sleep(12 * time.Second)
 		vrpc.Refuse(addr(victim.id), false)
+		if nf == 2 && vrt.Choose(2, true, "then-the-other-follower-dies") == 1 {
+			// a later change of the group: the follower that gave up on its leader connection is still a member
+			// (the leader reaches it) and has to learn the new numbering
+			for _, n := range nodes {
+				if n != victim && n.alive {
+					kill(n)
+					hist = append(hist, "then dies("+n.id.Name+")")
+					break
+				}
+			}
+		}
 	case 5:
 		// a new instance registers while its own RPC listener is not reachable yet: the leader cannot connect
 		// back, the registration fails, the process exits and is restarted by its supervisor - this time with
